@@ -108,6 +108,39 @@ def mgh_exact_doubled(DX, DY, timeout=20.0):
     return max(min_distortion(DX, DY, deadline), min_distortion(DY, DX, deadline))
 
 
+def twin_reduce(D, keep):
+    """Exact size reduction for mGH against a space with < keep points.  Twins = points x,y with d(x,z)=d(y,z) for every
+    other z.  Keeping min(multiplicity, keep) members of every twin class changes neither minimum distortion when
+    keep >= |Y|+1: maps Y->X use at most |Y| points, and a map X'->Y of a class with |Y|+1 members repeats an image, so
+    every further twin can be sent to that repeated image without creating a new distortion value."""
+    n = len(D)
+    A = np.asarray(D)
+    parent = list(range(n))
+
+    def find(a):
+        while parent[a] != a:
+            parent[a] = parent[parent[a]]
+            a = parent[a]
+        return a
+    sig = {}
+    for i in range(n):
+        sig.setdefault(tuple(sorted(A[i].tolist())), []).append(i)
+    for group in sig.values():
+        for ai in range(len(group)):
+            for bi in range(ai + 1, len(group)):
+                x, y = group[ai], group[bi]
+                if find(x) == find(y):
+                    continue
+                mask = np.ones(n, bool); mask[[x, y]] = False
+                if np.array_equal(A[x][mask], A[y][mask]):
+                    parent[find(x)] = find(y)
+    classes = {}
+    for i in range(n):
+        classes.setdefault(find(i), []).append(i)
+    keep_idx = sorted(v for members in classes.values() for v in members[:keep])
+    return [[int(A[i][j]) for j in keep_idx] for i in keep_idx], len(classes)
+
+
 def improve_map(DX, DY, f, rounds=3):
     """local search (single-vertex reassignment) that can only lower the distortion; returns (f, dis)"""
     f = list(f)
